@@ -298,18 +298,20 @@ CHECKS = {
               "portfolio returns, portfolio weights. Main file: arbitrary bytes, grammar-token soup, byte-level mutations of valid journals, empty/comment-only files, "
               "valid journals (history generator), syntactically valid noise (GenSyntaxJournal), semantically odd journals (accrual windows inverted/one day/200 years, "
               "dates 0001-01-01..9999-12-31, 400-digit amounts and decimals, invalid account types and dates, 10k-character tokens, Unicode digits, zero/negative/self prices, "
-              "odd assertions/closes/opens). Include graphs: single, chain, deep chain (12-40), tree, diamond, duplicate include, self/mutual/3-cycle, with one planted fault "
+              "odd assertions/closes/opens). Include graphs: single, chain, deep chain (12-40), tree, diamond, duplicate include, self/mutual/3-cycle, wide-nested (16-70 files each including a further file), with one planted fault "
               "(missing file, directory, include \"\", garbage leaf, semantically invalid leaf, symlink loop, dangling symlink, mutated leaf). Flags: every flag of every command "
               "absent / valid / hostile (inverted and extreme windows, --last negative/huge/unparseable, -m negative/huge/malformed, --digits extremes, invalid regexes and dates, "
               "unknown or invalid valuation commodity, transcode without -v, infer without -t, universe files, unknown flags), file argument missing/nonexistent/directory/doubled. "
               "Oracle (process level, 4 GB address space, 20 s then 90 s): terminates; exit 0 or non-zero with non-empty stderr; no panic/fatal error/signal; a bad included file "
-              "(by construction) => non-zero exit; failing balance/print/transcode/infer/check --write => empty stdout. "
+              "(by construction) => non-zero exit; failing balance/print/transcode/infer/check --write => empty stdout. Second oracle (late failure): journals of 60-200 generated actions over many days "
+              "with one fault appended after the last day (failed assertion, unopened account, double open, close with a position, missing price), run through check --write, balance (text/csv, valued), "
+              "print, transcode, register, portfolio weights: non-zero exit, diagnostic, and an empty stdout however much had been computed before the failing day. "
               "Non-trivial: the main file passes the parser, or has >=1 include, or non-default flags are used; distinct by case."),
         assumptions=["windows <= 200 years and interval flags chosen so that legitimate tables stay below ~20k columns; files <= 64 KB",
                      "format does not follow includes and the infer target is parsed alone: the bad-include rule is applied to check, balance, print, transcode, portfolio and the infer training file",
                      "unreadable files are represented by symlink loops and dangling symlinks (the sandbox runs as root, so permission bits are not effective)"],
-        quick=dict(tests=[dict(name="TestC14", cases=12000)]),
-        thorough=dict(tests=[dict(name="TestC14", cases=48000)],
+        quick=dict(tests=[dict(name="TestC14", cases=12000), dict(name="TestC14Late", cases=1600)]),
+        thorough=dict(tests=[dict(name="TestC14", cases=96000), dict(name="TestC14Late", cases=32000)],
                       fuzz=[dict(name="FuzzC14", seconds=120, seed_corpus=True)]),
     ),
 }
